@@ -102,8 +102,6 @@ def history(ctx, props=(), plan="single", kind=None, side=None, second="compete"
             w.check("repay1 again")
         w.place("o1", kind="limit", side=BUY)
         w.check("place1")
-        ctx.cover("an order was accepted")
-        ctx.cover("a request was rejected: place")
     else:
         raise ValueError(plan)
     ctx.cover("end of history")
@@ -147,6 +145,8 @@ def standard_plans(tier, borrow_limit_orders=True):
     ps.append(dict(plan="loans", depth=2, bp=8, qp=2, lend="margin_base_only", namounts=2, closes=CLOSES,
                    kinds=["limit", "market"], sides=["sell"], auto_borrow=True, auto_repay=False, loan_symbol="BTC",
                    min_fee="5"))
+    # a quote precision of 0 (whole units only)
+    ps.append(dict(plan="single", depth=2, bp=2, qp=0, kinds=["market", "limit"]))
     # two bar events of one pair for the same instant, each granting its own liquidity (partial fills on both)
     ps.append(dict(plan="single", depth=2, bp=0, qp=2, liq="vsi", vols=["10"], namounts=3, kinds=["limit"],
                    double_bar=True))
@@ -173,7 +173,7 @@ def standard_plans(tier, borrow_limit_orders=True):
 
 BOUNDS_QUICK = (
     "plans: single (1 order of each of the 8 classes, bar, then {second bar | cancel + bar}) at precisions (8,2) "
-    "[depth 3] and (0,2) [depth 2]; single depth 2 under VolumeShareImpact(25 %, 10 %) with solver-chosen volumes "
+    "[depth 3], (0,2) [depth 2] and (2,0) [depth 2, market and limit orders]; single depth 2 under VolumeShareImpact(25 %, 10 %) with solver-chosen volumes "
     "{0, 10, 127.83333333, 100000}; pair (2 orders in one bar, second from {limit buy, market buy, limit sell, stop "
     "sell}); loans (margin lending, requirement 0.5, 7 %/day interest in USD: loan in USD or BTC, limit/market order "
     "with each auto-borrow/auto-repay combination, bar; closes from {100, 31234.56}); rollback plan (lending "
